@@ -107,7 +107,7 @@ def apply_impl(case):
     from psyclone.psyir.nodes import Routine, Assignment, IntrinsicCall, Range, Reference, ArrayReference
     from psyclone.psyir.transformations import TransformationError
     T = transformations()
-    text = ext.fortran_text("sub", case["stmts"], case["decls"])
+    text = ext.fortran_text("sub", case["stmts"], case["decls"], case.get("forms"), case.get("args", False))
     res = {"text": text}
     try:
         psy = FortranReader().psyir_from_source(text)
@@ -150,7 +150,11 @@ def apply_impl(case):
                 node = calls[case.get("pick", 0)]
                 T[kind]().apply(node)
     except TransformationError as e:
-        res.update(verdict="refuse", msg=str(e.value)[:160])
+        try:
+            msg = str(e.value)[:160]
+        except Exception as e2:     # noqa: BLE001 -- the lazy message itself may fail to render
+            msg = "<refusal message not printable: %s>" % type(e2).__name__
+        res.update(verdict="refuse", msg=msg)
         return res
     except Exception as e:      # noqa: BLE001 -- an implementation crash is not an acceptance
         res.update(verdict="crash", msg="%s: %s" % (type(e).__name__, str(e)[:160]))
@@ -413,6 +417,35 @@ def classify(case, orig):
     return "unexplained"
 
 
+def names_in(stmts, acc=None):
+    acc = set() if acc is None else acc
+    for st in stmts:
+        if st[0] == "assign":
+            acc.add(st[1])
+            for e in list(st[2]) + [st[3]]:
+                for x in ext.subexprs(e):
+                    if x[0] in ("var", "idx"):
+                        acc.add(x[1])
+        elif st[0] == "if":
+            names_in(st[2], acc)
+            names_in(st[3], acc)
+        elif st[0] == "do":
+            names_in(st[5], acc)
+    return acc
+
+
+def forms_label(case):
+    """declaration forms of the arrays the program mentions"""
+    if not case.get("args"):
+        return "locals:explicit"
+    used = names_in(case["stmts"])
+    kinds = set()
+    for a, f in case["forms"].items():
+        if a in used:
+            kinds.add(f[0] if f[0] != "assumed" else ("assumed-lb" if any(x is not None for x in f[1]) else "assumed"))
+    return "dummies:" + "+".join(sorted(kinds))
+
+
 # ------------------------------------------------------------------ case generation
 KINDS_Q = [("arrassign", 110), ("ref2range", 8), ("ref2range+loops", 10), ("access2loop", 10), ("allaccess2loop", 10),
            ("abs", 14), ("sign", 14), ("min", 16), ("max", 16), ("dot", 22), ("matmul", 28),
@@ -465,12 +498,16 @@ def make_case(kind, rng):
     case["stmts"] = g.wrap(st, allow_loop)
     case["decls"] = g.decls()
     case["arrays"] = dict(g.arrays)
+    case["forms"] = dict(g.forms)
+    case["args"] = g.args
     case["_gen"] = g
     return case
 
 
 def case_json(case, res=None, bad=None):
     d = {k: case[k] for k in ("kind", "pick", "stream", "stmts", "decls", "arrays")}
+    d["forms"] = case.get("forms", {})
+    d["args"] = case.get("args", False)
     if res:
         d["fortran"] = res.get("text")
         d["verdict"] = res.get("verdict")
@@ -500,7 +537,8 @@ def replay_file(path):
 def load_case(d):
     case = {"kind": d["kind"], "pick": d.get("pick", 0), "stream": d.get("stream", "valid"),
             "stmts": tup(d["stmts"]), "decls": [(v, t, [tuple(b) for b in bs]) for v, t, bs in d["decls"]],
-            "arrays": {a: [tuple(b) for b in bs] for a, bs in d["arrays"].items()}}
+            "arrays": {a: [tuple(b) for b in bs] for a, bs in d["arrays"].items()},
+            "forms": {a: tuple(f) for a, f in d.get("forms", {}).items()}, "args": d.get("args", False)}
     return case
 
 
@@ -553,13 +591,14 @@ def run(ctx):
             key = "%s/%s" % (SITE[case["kind"]], classify(case, res["orig"]))
             failures.append((key, case, res, bad))
     # ---- 2. generated cases
-    scale = ctx.pick(1, 8)
+    scale = ctx.pick(2, 8)
     nstores = ctx.pick(3, 4)
     rng = ctx.rng("gen")
     srng = ctx.rng("stores")
     n_rt_bad = 0
     want_gf = ctx.pick(0, 90) if not os.environ.get("C06_GFORTRAN") else 40
     gf_items = []
+    gf_per_kind = {}
     for kind, n in KINDS_Q:
         for i in range(n * scale):
             case = make_case(kind, rng)
@@ -567,6 +606,7 @@ def run(ctx):
             v = res["verdict"]
             ctx.hist("verdict:" + kind, v)
             ctx.hist("stream", case["stream"])
+            ctx.hist("declaration_forms", forms_label(case))
             if v == "reader":
                 ctx.count(res["text"], False)
                 continue
@@ -601,7 +641,11 @@ def run(ctx):
             if ext.is_plain(res["out"], case["arrays"]) and len(plain_progs) < ctx.pick(60, 400):
                 plain_progs.append((res["out"], stores[0], case["arrays"]))
             corr_cases.append((case, res))
-            if want_gf and len(gf_items) < want_gf and (i % 3 == 0 or bad):
+            # (SIGN is left out of the compiled sample: a product such as -3.0*0.0 is -0.0 for gfortran, and signed
+            #  zeros are outside the property's domain)
+            if want_gf and gf_per_kind.get(kind, 0) < max(2, want_gf // len(KINDS_Q)) and (i % 2 == 0 or bad) \
+                    and "ISign" not in repr(res["orig"]):
+                gf_per_kind[kind] = gf_per_kind.get(kind, 0) + 1
                 gf_items.append((case, res, stores[0],
                                  compare(case, res["orig"], res["out"], res["new_names"], [stores[0]]) is not None))
             if bad:
